@@ -167,3 +167,33 @@ func privateCell(a *ssa.Alloc) bool {
 	}
 	return true
 }
+
+// privateMap: a map created here and only used by this function's own lookups, updates,
+// deletes, ranges and len: no callee can reach it.
+func privateMap(m *ssa.MakeMap) bool {
+	refs := m.Referrers()
+	if refs == nil {
+		return false
+	}
+	for _, r := range *refs {
+		switch x := r.(type) {
+		case *ssa.MapUpdate:
+			if x.Map != m {
+				return false
+			}
+		case *ssa.Lookup:
+			if x.X != m {
+				return false
+			}
+		case *ssa.Range, *ssa.DebugRef:
+		case *ssa.Call:
+			b, ok := x.Call.Value.(*ssa.Builtin)
+			if !ok || (b.Name() != "len" && b.Name() != "delete") {
+				return false
+			}
+		default:
+			return false
+		}
+	}
+	return true
+}
